@@ -6,7 +6,7 @@
    model without it and carry it only to say where model and machine arithmetic coincide.
    ldx/ldy = end - start per axis, sgn x = 1 if 0 <= x else -1, y_major l = |dx| <= |dy|. *)
 From EG Require Import Base.Prelude Model.Geometry Model.Style Model.Line Model.Thickline
-                       Proofs.Line Proofs.Thickline Proofs.ThicklineCheck Proofs.ThicklineGrid.
+                       Proofs.Line Proofs.Thickline Proofs.ThicklineCheck Proofs.ThicklineGrid Proofs.ThicklineNoDup.
 
 Theorem C17_line_first : forall l, line_ok l -> hd_error (line_points l) = Some (l_start l).
 Proof. intros l _. apply line_first. Qed.
@@ -122,7 +122,28 @@ Theorem C17_thick_points_translate : forall l d w,
   thick_points (translate_line l d) w = option_map (shift d) (thick_points l w).
 Proof. exact thick_points_translate. Qed.
 
-(* The remaining clauses -- no pixel twice, within w/2 + 2.5 pixels of the ideal line, at most one pixel beyond
+(* no pixel twice -- ALL lines, ALL widths (the model's fuel never runs out, C17_thick_terminates, so `= Some ps` is
+   the iterator's output).  Proof: every parallel, Normal or Extra, lies in its own band of the cross product,
+   2*(A x B)*cross in (j*a - D, j*a + D] with a = +-2*dmaj and a different j for every parallel (Proofs/ThicklineNoDup.v) *)
+Theorem C17_thick_no_duplicate : forall l w ps, thick_points l w = Some ps -> NoDup ps.
+Proof. exact thick_points_NoDup. Qed.
+
+(* a coarse bound on the distance to the ideal line for ALL (non-degenerate) lines and widths:
+   2 |cross| <= (6w+5) * dmaj <= (6w+5) * len, i.e. distance <= 3w + 2.5.
+   `_partial`: the property's bound w/2 + 2.5 is FALSE from width 34 on (C17_thick_distance_refuted, finding
+   K17_wide_stroke); for w <= 33 it is OPEN beyond the grid theorem below *)
+Theorem C17_thick_distance_partial : forall l w ps p, 0 <= w -> 1 <= ldmaj l ->
+  thick_points l w = Some ps -> In p ps -> 2 * Z.abs (cross_to l p) <= (6 * w + 5) * ldmaj l.
+Proof. exact thick_points_strip. Qed.
+
+(* finding K17_wide_stroke, machine checked on the model: Line (0,0)-(24,11), stroke 34 paints (12,-16),
+   19.55 px from the ideal line, more than w/2 + 2.5 = 19.5 *)
+Definition K17_wide_stroke (w : Z) : bool := 34 <=? w.
+Theorem C17_thick_distance_refuted : exists l w ps p,
+  K17_wide_stroke w = true /\ thick_points l w = Some ps /\ In p ps /\ ~ dist_ok l w p.
+Proof. exact thick_distance_refuted. Qed.
+
+(* The remaining clauses -- within w/2 + 2.5 pixels of the ideal line, at most one pixel beyond
    the two ends, at least w - 1 pixels wide at the middle -- for every line of the property's quantifier
    domain: |dx|, |dy| <= 14 (all pairs of end points of the grid [-7,7]^2, and all their translates anywhere
    in the plane) and stroke widths 0..9.  thick_ok (Proofs/ThicklineCheck.v):
